@@ -241,6 +241,12 @@ vbi_pfc_demux_feed		(vbi_pfc_demux *	dx,
 			goto desynced;
 
 		if (pgno != dx->block.pgno) {
+			if (dx->packet <= dx->n_packets) {
+				/* Our page was terminated early, packets
+				   are missing. Discard the current block. */
+				vbi_pfc_demux_reset (dx);
+			}
+
 			dx->n_packets = 0;
 			return TRUE;
 		}
@@ -252,13 +258,21 @@ vbi_pfc_demux_feed		(vbi_pfc_demux *	dx,
 
 		stream = (subno >> 8) & 15;
 		if (stream != dx->block.stream) {
+			if (dx->packet <= dx->n_packets) {
+				/* As above. */
+				vbi_pfc_demux_reset (dx);
+			}
+
 			dx->n_packets = 0;
 			return TRUE;
 		}
 
 		ci = subno & 15;
-		if (ci != dx->ci) {
-			/* Page continuity lost, wait for new block. */
+		if (ci != dx->ci
+		    || dx->packet <= dx->n_packets) {
+			/* Page continuity lost or the last packets
+			   of the previous page are missing, wait for
+			   new block. */
 			vbi_pfc_demux_reset (dx);
 		}
 
